@@ -60,6 +60,8 @@ type genFile struct {
 	localMsgs bool   // the RPCs use messages Req / Res defined in this file (in its own Go package)
 	comment   string // if set, the leading comment of every method (with comments = true)
 	param     string // the plugin parameter (protoc --connect-go_opt=…)
+	fileName  string // the .proto file's name (default dir/probe.proto)
+	idem      bool   // the methods declare idempotency_level = NO_SIDE_EFFECTS
 }
 
 func (f genFile) commentFor(method string) string {
@@ -71,8 +73,12 @@ func (f genFile) commentFor(method string) string {
 
 func (f genFile) request() *pluginpb.CodeGeneratorRequest {
 	empty := protodesc.ToFileDescriptorProto((&emptypb.Empty{}).ProtoReflect().Descriptor().ParentFile())
+	name := "dir/probe.proto"
+	if f.fileName != "" {
+		name = f.fileName
+	}
 	fd := &descriptorpb.FileDescriptorProto{
-		Name:       proto.String("dir/probe.proto"),
+		Name:       proto.String(name),
 		Syntax:     proto.String("proto3"),
 		Dependency: []string{"google/protobuf/empty.proto"},
 		Options:    &descriptorpb.FileOptions{GoPackage: proto.String(f.goPackage)},
@@ -99,6 +105,12 @@ func (f genFile) request() *pluginpb.CodeGeneratorRequest {
 			if m.dep {
 				md.Options = &descriptorpb.MethodOptions{Deprecated: proto.Bool(true)}
 			}
+			if f.idem {
+				if md.Options == nil {
+					md.Options = &descriptorpb.MethodOptions{}
+				}
+				md.Options.IdempotencyLevel = descriptorpb.MethodOptions_NO_SIDE_EFFECTS.Enum()
+			}
 			sd.Method = append(sd.Method, md)
 			if f.comments {
 				loc.Location = append(loc.Location, &descriptorpb.SourceCodeInfo_Location{Path: []int32{6, int32(si), 2, int32(mi)}, Span: []int32{1, 1, 1}, LeadingComments: proto.String(f.commentFor(m.name))})
@@ -112,7 +124,7 @@ func (f genFile) request() *pluginpb.CodeGeneratorRequest {
 	if f.localMsgs {
 		fd.MessageType = []*descriptorpb.DescriptorProto{{Name: proto.String("Req")}, {Name: proto.String("Res")}}
 	}
-	req := &pluginpb.CodeGeneratorRequest{FileToGenerate: []string{"dir/probe.proto"}, ProtoFile: []*descriptorpb.FileDescriptorProto{empty, fd}}
+	req := &pluginpb.CodeGeneratorRequest{FileToGenerate: []string{name}, ProtoFile: []*descriptorpb.FileDescriptorProto{empty, fd}}
 	if f.param != "" {
 		req.Parameter = proto.String(f.param)
 	}
@@ -430,6 +442,11 @@ func streamGen(c *Ctx) {
 		files = append(files, genFile{pkg: "ann.v1", goPackage: fmt.Sprintf("example.com/gen/ann/v%d;annv%d", i, i), param: "annotate_code=true", comments: true,
 			services: []genService{{name: svc, methods: []genMethod{{name: "Do"}, {name: "watch_all", ss: true}}}}})
 	}
+	// a .proto file directly in the proto root (no directory in its name), with and without
+	// paths=source_relative; and standard method options the generator has no use for (round 10)
+	files = append(files, genFile{pkg: "root.v1", goPackage: "example.com/gen/root/v1;rootv1", fileName: "greet.proto", param: "paths=source_relative", services: []genService{{name: "Greeter", methods: []genMethod{{name: "Hello"}}}}})
+	files = append(files, genFile{pkg: "root.v2", goPackage: "example.com/gen/root/v2;rootv2", fileName: "greet.proto", services: []genService{{name: "Greeter", methods: []genMethod{{name: "Hello"}}}}})
+	files = append(files, genFile{pkg: "idem.v1", goPackage: "example.com/gen/idem/v1;idemv1", idem: true, services: []genService{{name: "Reader", methods: []genMethod{{name: "Get"}, {name: "List", ss: true}}}}})
 	files = append(files, genFile{pkg: "ann.v9", goPackage: "example.com/gen/ann/v9;annv9", param: "paths=source_relative", services: []genService{{name: "ping_service", methods: []genMethod{{name: "Do"}}}}})
 	// the service whose generated client the type-check step also RUNS (genRunProbe)
 	files = append(files, genFile{pkg: "probe.v1", goPackage: "example.com/gen/probe/v1;probev1", services: []genService{{name: "Probe", methods: []genMethod{{name: "Do"}}}}})
